@@ -30,9 +30,9 @@ CONTAINER_PROPS = ['C01', 'C02', 'C03', 'C04', 'C07', 'C08', 'C10', 'C11', 'C12'
 COLL_STREAM = dict(
     name='coll', pkg='', files=['harness/coll/vc_coll_test.go'], test='TestVerifColl$',
     corpus='corpus/coll', new_marker='c new',
-    # VERIF_COLL_GHOSTS=0: the generators avoid known finding D25 (FINDINGS.md); set to 1 once /repo is repaired
-    env=dict(quick=dict(VERIF_COLL_EXH=2, VERIF_COLL_RANDOM=250, VERIF_COLL_MODS=120, VERIF_COLL_GHOSTS=0),
-             thorough=dict(VERIF_COLL_EXH=3, VERIF_COLL_RANDOM=2500, VERIF_COLL_MODS=1200, VERIF_COLL_GHOSTS=0)),
+    # VERIF_COLL_GHOSTS=1: /repo is repaired (fix: a removed output ... no longer receives an instance), the generators no longer avoid D25
+    env=dict(quick=dict(VERIF_COLL_EXH=2, VERIF_COLL_RANDOM=250, VERIF_COLL_MODS=120, VERIF_COLL_GHOSTS=1),
+             thorough=dict(VERIF_COLL_EXH=3, VERIF_COLL_RANDOM=2500, VERIF_COLL_MODS=1200, VERIF_COLL_GHOSTS=1)),
     # a wrong ModuleError wrapping shows on the `c mods` line only; everything else is the registry
     prop_ops=dict(C17=r'^c (?!mods|def)', C20=r'^c (mods|def|new)'),
     rule='collection op sequences: corpus (D11/D12/D13 regressions), every sequence of length L over 15 colliding calls '
